@@ -7,9 +7,9 @@ CONSTANTS N = 5
  LatSet = {1}
  Offsets <- OffsetsZero
  Inputs <- InputsT
- MaxTime = 84
+ MaxTime = 120
  MaxCrash = 1
  Slack = 0
-INVARIANTS Safety NoHonestUnjust BoundedRounds NoRunaway DecidedBy80
+INVARIANTS Safety NoHonestUnjust BoundedRounds NoRunaway DecidedInTime
 VIEW TView
 CHECK_DEADLOCK FALSE
